@@ -2375,6 +2375,14 @@ int _vnaproperty_yaml_import(vnaproperty_yaml_t *vymlp,
 		value = yaml_document_get_node(document, pair->value);
 		if ((subtree = vnaproperty_set_subtree(rootptr, "%s",
 			    (const char *)key->data.scalar.value)) == NULL) {
+		    if (errno == EINVAL) {
+			_vnaproperty_yaml_error(vymlp, VNAERR_SYNTAX,
+				"%s (line %ld) error: invalid property key: %s",
+				vymlp->vyml_filename,
+				key->start_mark.line + 1,
+				(const char *)key->data.scalar.value);
+			goto out;
+		    }
 		    _vnaproperty_yaml_error(vymlp, VNAERR_SYSTEM,
 			    "_vnaproperty_set_subtree: %s: %s",
 			    vymlp->vyml_filename, strerror(errno));
